@@ -32,6 +32,9 @@ FAILING = [
     ("concat-shape", "mg.concatenate([{s}, BAD7.reshape(7, 1)], axis=0)"),
     ("readonly-target", "RO[...] = c1"),
     ("einsum-bad", "mg.einsum('ijk->i', {s})"),
+    # rejected only AFTER the forward pass has run (integer result forced non-constant)
+    ("int-forced-variable", "mg.add(IT, IT, constant=False)"),
+    ("int-view-forced-variable", "mg.multiply(IT[:2], 2, constant=False)"),
 ]
 # in-place statements that must fail when the memory they would write to is natively read-only
 RO_FAILING = [
@@ -123,6 +126,7 @@ def run_item(mg, base, prog, pos, fname, res, ro=False):
         ro_arr = np.array(symarr("ro", (2,)), dtype=object)
         ro_arr.flags.writeable = False
         T["RO"] = mg.Tensor(ro_arr, copy=False, constant=False)
+        T["IT"] = mg.Tensor(np.array([1, 2, 3]))
         raised = None
         snap_after = None
         for i, ln in enumerate(prog):
@@ -145,7 +149,7 @@ def run_item(mg, base, prog, pos, fname, res, ro=False):
         grads = {n: (None if T[n].grad is None else terms_of(T[n].grad)) for n in vp.TENSOR_NAMES + C05.LEAVES
                  if n in T and isinstance(T[n], mg.Tensor)}
         final = snapshot(T, mg)
-        ro_ok = (not T["RO"].data.flags.writeable)
+        ro_ok = (not T["RO"].data.flags.writeable) and bool(T["IT"].data.flags.writeable)
         return dict(raised=raised, snap=snap_after, Lterms=Lterms, grads=grads, final=final, ro_ok=ro_ok)
 
     def body():
@@ -171,7 +175,7 @@ def run_item(mg, base, prog, pos, fname, res, ro=False):
                 fields = [f for f in a[key][d0] if a[key][d0][f] != b[key][d0][f]]
                 return "state", "%s the failure tensor %s differs in %s" % ("right after" if key == "snap" else "at the end,", d0, fields)
         if not a["ro_ok"]:
-            return "state", "natively read-only array became writeable"
+            return "state", "natively read-only array became writeable, or the integer operand of the failed call stayed locked"
         prob = query.Problem(list(p.pc) + list(p.dom))
         pairs = list(zip(a["Lterms"], b["Lterms"]))
         for n in a["grads"]:
@@ -225,6 +229,7 @@ def run(fail):
          "BAD7": np.ones(7), "BAD7T": np.ones(7), "BADMASK": np.ones(7, dtype=bool)}
     ro = np.array([1.0, 2.0]); ro.flags.writeable = False
     T["RO"] = mg.Tensor(ro, copy=False)
+    T["IT"] = mg.Tensor(np.array([1, 2, 3]))
     raised = []; s1 = None
     for i, ln in enumerate(PROG):
         if i == POS:
@@ -238,7 +243,7 @@ def run(fail):
         exec(ln, T)
     T["L"].backward()
     g = {n: (None if T[n].grad is None else T[n].grad.tolist()) for n in TN if n in T and isinstance(T[n], mg.Tensor)}
-    return raised, s1, snap(T), float(np.sum(T["L"].data)), g, T["RO"].data.flags.writeable
+    return raised, s1, snap(T), float(np.sum(T["L"].data)), g, T["RO"].data.flags.writeable or not T["IT"].data.flags.writeable
 ra, a1, a2, La, ga, roa = run(True)
 for k_ in list(lm._array_counter): pass
 lm._array_counter.clear(); lm._array_tracker.clear(); lm._views_waiting_for_unlock.clear()
@@ -248,7 +253,7 @@ if ra:
     if a1 != b1: bad.append(("state right after the failure", [n for n in a1 if a1[n] != b1.get(n)]))
     if a2 != b2: bad.append(("final state", [n for n in a2 if a2[n] != b2.get(n)]))
     if La != Lb or ga != gb: bad.append(("values/gradients", ga, gb))
-    if roa: bad.append("read-only array became writeable")
+    if roa: bad.append("read-only array became writeable / integer operand of the failed call still locked")
 print("raised:", ra); print(bad)
 print('REPRODUCED' if bad else 'NOT-REPRODUCED'); sys.exit(1 if bad else 0)
 ''' % (list(prog), pos, dict(FAILING + RO_FAILING)[fname], live_names(prog, pos), bool(ro), shape, shape[-1])
